@@ -48,8 +48,8 @@ def gen(ctx):
 
 # ------------------------------------------------------------------ helpers
 def nlist(codes):
-    """Coq expression of type list N (parsed inside Coq from a string literal: numeral lists are slow to elaborate)"""
-    return '(codes "%s")' % " ".join(str(c) for c in codes)
+    """Coq expression of type list N"""
+    return "[" + ";".join(str(c) for c in codes) + "]%N"
 
 
 def to_coq(t):
@@ -654,6 +654,17 @@ def from_json_str(j):
     return terms.from_json(j)
 
 
+def renumber_vars(t, m=None):
+    """variables named by the answer channel (X, _123) -> integers (written _G<n>)"""
+    m = {} if m is None else m
+    if t[0] == "var":
+        if t[1] not in m: m[t[1]] = len(m)
+        return ("var", m[t[1]])
+    if t[0] == "cmp":
+        return ("cmp", t[1], [renumber_vars(x, m) for x in t[2]])
+    return t
+
+
 def parse_texts(ctx, texts, tag, consult=None):
     """Prolog texts (operator notation) -> Python terms, as read by the implementation (None where it rejects the text)."""
     qs = ["T = (%s)." % t for t in texts]
@@ -664,7 +675,7 @@ def parse_texts(ctx, texts, tag, consult=None):
         if rec and "results" in rec and i < len(rec["results"]):
             for a in rec["results"][i]:
                 if isinstance(a, dict) and "b" in a and "T" in a["b"]:
-                    t = from_json_str(a["b"]["T"])
+                    t = renumber_vars(from_json_str(a["b"]["T"]))
         out.append(t)
     return out
 
